@@ -4,6 +4,8 @@ pub mod c01;
 pub mod c02;
 pub mod c03;
 pub mod c04;
+pub mod c05;
+pub mod c06;
 pub mod c09;
 pub mod c14;
 pub mod c15;
@@ -16,6 +18,7 @@ pub mod c31;
 pub mod c32;
 pub mod c33;
 pub mod c35;
+pub mod c36;
 pub mod c37;
 pub mod c38;
 pub mod c40;
@@ -32,6 +35,8 @@ pub const REGISTRY: &[(&str, RunFn)] = &[
     ("C02", c02::run),
     ("C03", c03::run),
     ("C04", c04::run),
+    ("C05", c05::run),
+    ("C06", c06::run),
     ("C09", c09::run),
     ("C14", c14::run),
     ("C15", c15::run),
@@ -44,6 +49,7 @@ pub const REGISTRY: &[(&str, RunFn)] = &[
     ("C32", c32::run),
     ("C33", c33::run),
     ("C35", c35::run),
+    ("C36", c36::run),
     ("C37", c37::run),
     ("C38", c38::run),
     ("C40", c40::run),
